@@ -1306,7 +1306,13 @@ def check_reload(viol, out, fname, model, cfg):
             viol('reload', 'component-type:' + name, '%s vs %s'
                  % (type(a).__name__, type(b).__name__))
             continue
-        va, vb = _ctor_values(a), _ctor_values(b)
+        try:
+            va, vb = _ctor_values(a), _ctor_values(b)
+        except AttributeError:
+            # internal attribute names are not part of the property: without
+            # them only the spectrum comparison below decides
+            out.bump('probes', 'component_state_not_readable')
+            continue
         for k in va:
             x, y = va[k], vb[k]
             same = (x == y) if isinstance(x, tuple) else \
@@ -1329,16 +1335,23 @@ def check_reload(viol, out, fname, model, cfg):
         else:
             v = ()
         return (g.molecule, n, v)
-    g1 = sorted((gas_key(g) for g in model.chemistry._gases), key=repr)
-    g2 = sorted((gas_key(g) for g in m2.chemistry._gases), key=repr)
+    try:
+        g1 = sorted((gas_key(g) for g in model.chemistry._gases), key=repr)
+        g2 = sorted((gas_key(g) for g in m2.chemistry._gases), key=repr)
+        fill1 = (list(model.chemistry._fill_gases),
+                 np.ravel(model.chemistry._fill_ratio))
+        fill2 = (list(m2.chemistry._fill_gases),
+                 np.ravel(m2.chemistry._fill_ratio))
+    except AttributeError:
+        out.bump('probes', 'component_state_not_readable')
+        g1 = g2 = fill1 = fill2 = None
     if g1 != g2:
         viol('reload', 'gases', '%s vs %s' % (g1, g2))
-    if list(model.chemistry._fill_gases) != list(m2.chemistry._fill_gases) or \
-            not np.allclose(np.ravel(model.chemistry._fill_ratio),
-                            np.ravel(m2.chemistry._fill_ratio), rtol=1e-12):
+    if fill1 is not None and (
+            fill1[0] != fill2[0] or fill1[1].shape != fill2[1].shape or
+            not np.allclose(fill1[1], fill2[1], rtol=1e-12)):
         viol('reload', 'fill-gases', '%s %s vs %s %s'
-             % (model.chemistry._fill_gases, model.chemistry._fill_ratio,
-                m2.chemistry._fill_gases, m2.chemistry._fill_ratio))
+             % (fill1[0], fill1[1], fill2[0], fill2[1]))
     for attr, nm in (('new_method', 'new_path_method'), ('_ngauss', 'ngauss')):
         if hasattr(model, attr) and getattr(model, attr) != getattr(m2, attr,
                                                                     None):
